@@ -1,10 +1,8 @@
 package rules
 
 import (
-	"fmt"
 	"go/ast"
 	"go/token"
-	"go/types"
 
 	"lachk/core"
 )
@@ -13,7 +11,7 @@ const semT = "utils/datasemaphore.DataSemaphore"
 
 func init() {
 	register("C30", "other", "T1 LockSet, T18 TimedWait, T4 GuardedBy (normalised comparisons), T3 PostDominates (Broadcast after every state change)",
-		"Decides the shape the semaphore's bound/wait/timeout behaviour depends on: all state under the mutex; tryAcquire commits the new held amount only on the edge where both components fit the capacity; Acquire refuses over-capacity requests before waiting, re-evaluates tryAcquire and the deadline after every wake-up, and every cond.Wait is preceded by a deadline-bound waker that broadcasts under the mutex (otherwise a waiter that nobody releases for sleeps past its timeout); every change of the held amount or capacity in Release/Terminate is followed by Broadcast; over-release zeroes the held amount and calls the nil-guarded warning; Terminate zeroes the capacity. Timing ('returns shortly after') and uint32 wrap of summed amounts are not decided.",
+		"Decides the shape the semaphore's bound/wait/timeout behaviour depends on: all state under the mutex; tryAcquire commits the new held amount only on the edge where both components fit the capacity; Acquire refuses over-capacity requests before waiting, re-evaluates tryAcquire, the capacity refusal (Terminate zeroes the capacity while callers sleep) and the deadline after every wake-up, and every cond.Wait is preceded by a deadline-bound waker that broadcasts under the mutex (otherwise a waiter that nobody releases for sleeps past its timeout); every change of the held amount or capacity in Release/Terminate is followed by Broadcast; over-release zeroes the held amount and calls the nil-guarded warning; Terminate zeroes the capacity. Timing ('returns shortly after') and uint32 wrap of summed amounts are not decided.",
 		[]string{"amounts sum below 2^32 (uint32 wrap in tmp.Num += is not analysed)", "time.AfterFunc runs its function once after the duration (time package contract)"},
 		runC30)
 }
@@ -109,6 +107,14 @@ func runC30(c *core.Ctx) {
 				c.Check(ok, "no wait for over-capacity "+comp, "T4 GuardedBy", w.Pos(),
 					"Wait is reached only when req."+comp+" <= max."+comp+" (larger requests are refused)",
 					"Wait reachable with req."+comp+" > max."+comp+": "+f.DescribePath(path))
+				// (2b) the capacity can change while the caller sleeps (Terminate zeroes it and broadcasts): the
+				// refusal must be re-evaluated after every wake-up, i.e. every path from Wait back to Wait
+				// re-establishes req <= max. A test made once before the loop lets a caller that was blocked
+				// when Terminate ran go back to sleep until its own timeout.
+				okR, pathR := c30GuardedBetween(f, w.Pt, w.Pt, "req."+comp+" - max."+comp+" <= 0", name)
+				c.Check(okR, "capacity re-checked after wake "+comp, "T4 GuardedBy (loop)", w.Pos(),
+					"every path from Wait back to Wait re-establishes req."+comp+" <= max."+comp+" (a caller woken by Terminate, which zeroes the capacity, is refused instead of waiting again)",
+					"a woken caller can wait again without re-testing req."+comp+" <= max."+comp+": a caller blocked when Terminate zeroes the capacity sleeps until its own timeout: "+f.DescribePath(pathR))
 			}
 			checkTimedWait(c, f, w)
 		}
@@ -141,190 +147,5 @@ func runC30(c *core.Ctx) {
 		c.ExpectAtLeast("state changes in Release/Terminate", n, 4)
 	})
 
-	c.Clause("C30.overrelease", func() {
-		f := c.Fn(semT + ".Release")
-		weight := f.Param(0)
-		name := func(acc c30Access) string {
-			if len(acc.Path) == 1 && acc.Root != nil && acc.Root == weight {
-				return "rel." + short(acc.Path[0])
-			}
-			if len(acc.Path) == 2 && acc.Path[0] == semT+".processing" {
-				return "held." + short(acc.Path[1])
-			}
-			return ""
-		}
-		// the subtraction happens only when held >= released for both components
-		nSub := 0
-		for _, a := range assignments(f) {
-			_, path := fieldPath(f, a.LHS)
-			if len(path) != 2 || path[0] != semT+".processing" || a.Tok != token.SUB_ASSIGN {
-				continue
-			}
-			nSub++
-			for _, comp := range []string{"Metric.Num", "Metric.Size"} {
-				ok, wit := c30Guarded(f, a.Pt, "rel."+comp+" - held."+comp+" <= 0", name)
-				c.Check(ok, "subtract "+short(path[1])+" guarded by "+comp, "T4 GuardedBy", a.Stmt.Pos(), "held amount is reduced only when held."+comp+" >= released."+comp, "subtraction reachable with held."+comp+" < released."+comp+" (would wrap): "+f.DescribePath(wit))
-			}
-		}
-		c.ExpectAtLeast("subtractions in Release", nSub, 2)
-		// over-release edge: processing zeroed, warning nil-guarded
-		var zero []assignment
-		for _, a := range assignsToField(f, semT+".processing") {
-			if cl, ok := ast.Unparen(a.RHS).(*ast.CompositeLit); ok && len(cl.Elts) == 0 {
-				zero = append(zero, a)
-			}
-		}
-		c.Check(len(zero) == 1, "over-release zeroes held", "T7 Pairing", f.Pos(), "the over-release branch resets processing to the zero Metric", "no assignment of the zero Metric to processing in Release")
-		warn := f.CallsTo(semT + ".warning")
-		c.Check(len(warn) == 1, "over-release reported", "T7 Pairing", f.Pos(), "the warning callback is invoked on the over-release branch", "warning callback is not invoked exactly once in Release")
-		if len(zero) == 1 && len(warn) == 1 {
-			ok, wit := f.GuardedBy(warn[0].Pt, func(ft core.Fact) bool {
-				cm, ok := core.NormCmp(ft)
-				return ok && cm.Op == token.NEQ && fieldNameOf(f, cm.L) == semT+".warning" && core.IsNil(f.Info(), cm.R)
-			})
-			c.Check(ok, "warning nil-guarded", "T4 GuardedBy", warn[0].Pos(), "warning is called only when non-nil", "warning may be called when nil: "+f.DescribePath(wit))
-			okZ, _ := c30Guarded(f, zero[0].Pt, "rel.Metric.Num - held.Metric.Num <= 0", name)
-			c.Check(!okZ, "zeroing not on the fits edge", "T4 GuardedBy", zero[0].Stmt.Pos(), "the reset is not taken on the edge where the release fits", "processing is reset on the edge where the release fits the held amount")
-		}
-	})
-
-	c.Clause("C30.terminate", func() {
-		f := c.Fn(semT + ".Terminate")
-		var zero []assignment
-		for _, a := range assignsToField(f, semT+".maxProcessing") {
-			if cl, ok := ast.Unparen(a.RHS).(*ast.CompositeLit); ok && len(cl.Elts) == 0 {
-				zero = append(zero, a)
-			}
-		}
-		ok := len(zero) == 1
-		for _, rp := range f.ReturnPoints() {
-			if ok {
-				ok, _ = f.MustPassBefore([]core.Point{zero[0].Pt}, rp)
-			}
-		}
-		c.Check(ok, "Terminate zeroes capacity", "T2 Dominates", f.Pos(), "maxProcessing is set to the zero Metric on every path (every later non-empty request exceeds it and is refused)", "Terminate does not zero maxProcessing on every path")
-	})
-}
-
-// checkTimedWait is T18: the cond.Wait w in f (which has a time.Duration parameter) needs a
-// deadline-bound waker armed before it, broadcasting under the mutex, and the deadline must be
-// re-checked between consecutive waits.
-func checkTimedWait(c *core.Ctx, f *core.FuncInfo, w *core.CallSite) {
-	condField := fieldNameOf(f, w.Recv())
-	if condField == "" {
-		c.Undecided("T18|cond", "T18 TimedWait", w.Pos(), "cannot identify the condition variable of Wait")
-		return
-	}
-	// candidate wakers: time.AfterFunc(d, fn) whose fn broadcasts/signals on the same cond
-	type waker struct {
-		site *core.CallSite
-		fn   *core.FuncInfo
-	}
-	var wakers []waker
-	var why []string
-	for _, cs := range f.CallsTo("time.AfterFunc") {
-		fn := litArg(f, cs.Call, 1)
-		if fn == nil {
-			why = append(why, "AfterFunc callback at "+c.P.Pos(cs.Pos())+" is not a function literal")
-			continue
-		}
-		var bc []*core.CallSite
-		for _, b := range fn.CallsTo("sync.Cond.Broadcast", "sync.Cond.Signal") {
-			if fieldNameOf(fn, b.Recv()) == condField {
-				bc = append(bc, b)
-			}
-		}
-		if len(bc) == 0 {
-			why = append(why, "AfterFunc callback at "+c.P.Pos(cs.Pos())+" does not wake "+short(condField))
-			continue
-		}
-		// on all paths of the callback
-		if ok, _ := fn.MustPassBefore(core.Points(bc), fn.ReturnPoints()[0]); !ok && len(fn.ReturnPoints()) == 1 {
-			why = append(why, "AfterFunc callback does not broadcast on every path")
-			continue
-		}
-		// under the mutex: a Lock call precedes the broadcast (no lost wake-up between the deadline check and Wait)
-		locks := fn.CallsTo("sync.Mutex.Lock", "sync.RWMutex.Lock", "sync.Locker.Lock")
-		lockedOK := len(locks) > 0
-		for _, b := range bc {
-			if ok, _ := fn.MustPassBefore(core.Points(locks), b.Pt); !ok {
-				lockedOK = false
-			}
-		}
-		if !lockedOK {
-			why = append(why, "AfterFunc callback broadcasts without holding the mutex (wake-up can be lost between the deadline check and Wait)")
-			continue
-		}
-		wakers = append(wakers, waker{cs, fn})
-	}
-	if len(wakers) == 0 {
-		detail := "cond.Wait has no deadline-bound waker: if nothing is released, the caller blocks past its timeout"
-		for _, y := range why {
-			detail += "; " + y
-		}
-		c.Fail("T18|Acquire|waker armed before Wait", "T18 TimedWait", w.Pos(), detail)
-		return
-	}
-	// armed before the wait: every path entry -> Wait passes an arming call, or an edge that proves the
-	// timer variable (assigned only from arming calls) is non-nil
-	var armPts []core.Point
-	timerVars := map[*types.Var]bool{}
-	for _, wk := range wakers {
-		armPts = append(armPts, wk.site.Pt)
-		for _, a := range assignments(f) {
-			if a.RHS != nil && ast.Unparen(a.RHS) == ast.Expr(wk.site.Call) {
-				if v := varOf(f, a.LHS); v != nil {
-					timerVars[v] = true
-				}
-			}
-		}
-	}
-	for v := range timerVars {
-		for _, a := range assignsToVar(f, v) {
-			if a.RHS == nil {
-				continue
-			}
-			if call, ok := ast.Unparen(a.RHS).(*ast.CallExpr); ok && calleeName(f, call) == "time.AfterFunc" {
-				continue
-			}
-			if core.IsNil(f.Info(), a.RHS) {
-				continue
-			}
-			delete(timerVars, v)
-		}
-	}
-	armedEdge := f.GuardEdges(func(ft core.Fact) bool {
-		cm, ok := core.NormCmp(ft)
-		if !ok || cm.R == nil || cm.Op != token.NEQ {
-			return false
-		}
-		return timerVars[varOf(f, cm.L)] && core.IsNil(f.Info(), cm.R)
-	})
-	path, found := core.PathQuery{F: f, From: f.Entry(), Target: core.PointSet(w.Pt), Avoid: core.PointSet(armPts...), AvoidEdge: armedEdge}.Find()
-	c.Check(!found, "T18|Acquire|waker armed before Wait", "T18 TimedWait", w.Pos(),
-		fmt.Sprintf("every path to cond.Wait arms a time.AfterFunc waker that broadcasts on %s under the mutex", short(condField)),
-		"cond.Wait reachable without the deadline waker armed: "+f.DescribePath(path))
-	// deadline re-checked between waits: a branch mentioning time.Now/Since/Until or a variable the waker writes
-	wakerVars := map[types.Object]bool{}
-	for _, wk := range wakers {
-		for _, a := range assignments(wk.fn) {
-			if v := varOf(wk.fn, a.LHS); v != nil {
-				wakerVars[v] = true
-			}
-		}
-	}
-	dl := condPoints(f, func(e ast.Expr) bool {
-		if c30MayCall(f, e, 2, "time.Now", "time.Since", "time.Until") {
-			return true
-		}
-		for v := range wakerVars {
-			if mentionsObj(f, e, v) {
-				return true
-			}
-		}
-		return false
-	})
-	ok, wit := f.MustPassBetween(w.Pt, dl, w.Pt)
-	c.Check(ok && len(dl) > 0, "T18|Acquire|deadline re-checked after wake", "T18 TimedWait", w.Pos(),
-		"every path from Wait back to Wait passes a deadline test", "a path from Wait back to Wait skips the deadline test: "+f.DescribePath(wit))
+	c30ReleaseClauses(c)
 }
